@@ -284,9 +284,9 @@ def run(P: Program, rep: Report):
                           f"{MW[kind]} on an instance of a subclass of Entry with month {v!r}: {res[:2]!r}, the contract gives {want!r}")
 
     rep.rule("C15.R6", "no state between entries: one middleware instance applied to a run of entries whose month values coincide under "
-                       "str() / lower() / strip() / int() (13 and '13', 1 and '1' and '01', 'jan' and 'JAN', 'foo' and 'FOO', None and 'None') "
+                       "str() / lower() / strip() / int() / == and hash (13 and '13', 3 and 3.0, 1 and '1' and '01', 'jan' and 'JAN', 'foo' and 'FOO', None and 'None') "
                        "gives every entry the contract's value for its own month value, in either order")
-    runs = [[13, "13", 1, "1", "01", "jan", "JAN", "Jan", "foo", "FOO", "Foo", 0, "0", None, "None", " 1", "1 ", "may", "May", "MAY", 5, "5", "05"]]
+    runs = [[13, 13.0, "13", 3, 3.0, 1, 1.0, "1", "01", "jan", "JAN", "Jan", "foo", "FOO", "Foo", 0, "0", None, "None", " 1", "1 ", "may", "May", "MAY", 5, "5", "05"]]
     runs.append(list(reversed(runs[0])))
     bad6 = {}
     n6 = 0
